@@ -18,7 +18,7 @@ PLAN = dict(
                det("l1-mailbox", L1, "cs-rel", 4, 250, 6, tso=True, time_cap=20, optional=True, case_prefix="mbox "),
                det("l1-slot", L1S, "cs-rel", 8, 250, 6, tso=True, time_cap=25, optional=True, case_prefix="slot "),
                det("l1-slot-dbg", L1S, "cs-dbg", 4, 120, 6, tso=True, time_cap=25, optional=True, case_prefix="slot "),
-               tsan("C01", 4, 80)],
+               tsan("C01", 8, 240)],
         thorough=[det("rel", H, "cs-rel", 16, 1200, 5, tso=True, time_cap=300),
                   det("dbg", H, "cs-dbg", 16, 300, 5, tso=True, time_cap=200, args=["--no-soft0"]),
                   det("enum-wake", H, "cs-rel", 16, 40, 2, tso=True, time_cap=120, enum="wake", enum_cap=150),
